@@ -4,6 +4,7 @@ CONSTANTS
   BaseSet = "families"
   MaxMut = 4
   MaxBoth = 1
+  Star = TRUE
   HashBits = 32
 INVARIANT Emit
 CHECK_DEADLOCK FALSE
